@@ -24,7 +24,8 @@ ASSUMPTIONS = ['normal simulator: prefix = events while the simulated clock <= T
                'scripted strategies decide from (index, own observations) only']
 MIN_OBS = {'frontier_row_accesses': 20000, 'pairs_compared': 200, 'pairs_nontrivial': 50, 'pairs_step': 60, 'pairs_fast': 40,
            'prefix_events_compared': 100000, 'prefix_hook_events': 20000,
-           'sessions_with_liquidations': 5, 'sessions_with_unaligned_warmup': 4}
+           'sessions_with_liquidations': 5, 'sessions_with_unaligned_warmup': 4,
+           'sessions_with_candle_sets_of_different_lengths': 2}
 
 
 def _tail(rng, base, k, kind, resting, step=None):
@@ -155,7 +156,20 @@ def run_job(job):
         cnt0['sessions_with_unaligned_warmup'] = 1
     allc = session.build_candles(spec)
     w = spec['warmup']
-    n = len(next(iter(allc.values()))) - w
+    n = min(len(x) for x in allc.values()) - w
+    surplus_sym = None
+    if job['i'] % 9 == 5 and len(allc) >= 2:
+        # candle sets of different lengths: one symbol's series goes on for a few more minutes than the session lasts (the
+        # session is as long as the set jesse takes its clock from; the unchanged code ignores the surplus of the others)
+        for cand in list(allc)[::-1]:
+            longer = dict(allc)
+            extra = gen.candles(dict(spec['candles'][cand], n=len(allc[cand]) + 7))
+            longer[cand] = extra
+            probe = session.run_session(spec, candles={s: x.copy() for s, x in longer.items()}, keep_events=False, snapshots=False)
+            if not probe['error']:
+                allc, surplus_sym = longer, cand
+                cnt0['sessions_with_candle_sets_of_different_lengths'] = 1
+                break
     # base run under the read-frontier guard: candle arrays are an ndarray subclass that records every row jesse touches
     frontier.begin()
     A = session.run_session(spec, candles={s: frontier.Guarded(x.copy()) for s, x in allc.items()})
